@@ -50,6 +50,25 @@ def gen_cases(ctx, rng):
                     dst = fill(rng, dn, style)
                     cases.append(({"ev": "copy", "dst": dst, "do": do, "len": ln, "src": src, "so": so},
                                   "C %%x %x %x %x %x %x %s %s" % (dn, do, ln, sn, so, hexl(dst), hexl(src))))
+    # copy into / out of TIGHT buffers (the fragment ends exactly at the end of the allocation), in both allocation orders of the two buffers
+    for so in offs[::2]:
+        for do in offs[::3]:
+            for ln in (8 - do % 8, 16 - do % 8, 8, 17, (8 - so % 8)):
+                sn = (so + ln + 7) // 8
+                dn = (do + ln + 7) // 8
+                if sn == 0 or dn == 0:
+                    continue
+                src = fill(rng, sn, 3)
+                dst = fill(rng, dn, 2)
+                for op in ("C", "c"):
+                    cases.append(({"ev": "copy", "dst": dst, "do": do, "len": ln, "src": src, "so": so},
+                                  "%s %%x %x %x %x %x %x %s %s" % (op, dn, do, ln, sn, so, hexl(dst), hexl(src))))
+    # single-bit fetch: inside, in the first byte past the end (zero extension: must not look at the byte behind the buffer), far beyond, empty buffer
+    for off in (range(0, 41) if not q else list(range(0, 18)) + [23, 24, 31, 32, 39]):
+        for size in sorted({off // 8, off // 8 + 1, 0, max(off // 8 - 1, 0)}):
+            phys = max(size, off // 8 + 1) + GUARD
+            buf = fill(rng, phys, 1 if (off + size) % 2 else 3)
+            cases.append(({"ev": "getu", "W": 8, "buf": buf, "size": size, "off": off, "len": 1, "prim": "getbit"}, "b %%x %x %x %x %s" % (phys, size, off, hexl(buf))))
     # getbits: declared size smaller than what off+len addresses (zero extension), output poisoned
     for off in offs:
         for ln in lens:
@@ -131,7 +150,11 @@ def run(ctx):
     tlc.check_model(ctx, "BitPrims", ctx.pick("BitPrims", "BitPrims_2"), constants="Level=%d (offsets 0..%d, lengths 0..%d)" % (ctx.pick(1, 2), ctx.pick(9, 15), ctx.pick(17, 20)), timeout=3000)
     # 2. drivers from the current tree
     natives = [NativePrims(ctx.scratch, "c", {}, "c_any"), NativePrims(ctx.scratch, "c", {"target_endianness": "little"}, "c_little"),
-               NativePrims(ctx.scratch, "cpp", {}, "cpp")]
+               NativePrims(ctx.scratch, "cpp", {}, "cpp"),
+               # the same libraries with their assertions switched on (NUNAVUT_ASSERT = assert): an assertion that fires on a call the contract
+               # defines is a call without a result
+               NativePrims(ctx.scratch, "c", {"enable_serialization_asserts": True, "target_endianness": "little"}, "c_little_asserts"),
+               NativePrims(ctx.scratch, "cpp", {"enable_serialization_asserts": True}, "cpp_asserts")]
     if not ctx.quick:
         natives += [NativePrims(ctx.scratch, "c", {}, "c_any_asan", sanitize=True), NativePrims(ctx.scratch, "cpp", {"target_endianness": "little"}, "cpp_little_asan", sanitize=True)]
     # the same C library with a pointer watch in a scratch copy of the generated header (bounded fetches only)
@@ -406,7 +429,10 @@ def replay(ctx, case):
             ctx.violation("C14|py|%s|%s" % (clause, case["ev"]), "%s on py" % clause, case)
         return
     lang = "cpp" if name.startswith("cpp") else "c"
-    nt = NativePrims(ctx.scratch, lang, {"target_endianness": "little"} if "little" in name else {}, name.replace("_asan", ""), sanitize="asan" in name)
+    opts = {"target_endianness": "little"} if "little" in name else {}
+    if "asserts" in name:
+        opts["enable_serialization_asserts"] = True
+    nt = NativePrims(ctx.scratch, lang, opts, name.replace("_asan", ""), sanitize="asan" in name)
     res = nt.run([(1, case["cmd"])])
     r = res.get(1, {"crash": "no output"})
     if "crash" in r:
